@@ -352,6 +352,45 @@ pub fn run(ctx: &Ctx) {
         );
     }
 
+    // long chains: flat in the source text, one level of parentheses per link in the rendering
+    let mut chains: Vec<Expr> = vec![];
+    for len in [10usize, 100, 129, 150, 300, 600] {
+        let a = || Expr::reff("a");
+        let fold2 = |k: &str| (0..len).fold(a(), |acc, _| mk2(k, acc, Expr::value(1)));
+        for k in ["add", "and", "eq", "bitor", "mult"] {
+            chains.push(fold2(k));
+        }
+        chains.push((0..len).fold(a(), |acc, _| Expr::index(acc, reval::expr::Index::Map("child".into()))));
+        chains.push((0..len).fold(a(), |acc, i| Expr::index(acc, reval::expr::Index::Vec(i % 3))));
+        chains.push((0..len).fold(a(), |acc, _| Expr::neg(acc)));
+        chains.push((0..len).fold(a(), |acc, _| Expr::func("f", acc)));
+        chains.push((0..len).fold(a(), |acc, _| Expr::Vec(vec![acc])));
+        chains.push((0..len).fold(a(), |acc, _| Expr::iif(Expr::value(true), Expr::value(1), acc)));
+    }
+    ctx.enumerate(
+        "long-chains",
+        chains.len() as u64,
+        true,
+        |i, acc| {
+            let e = &chains[i as usize];
+            acc.cell("chain", true);
+            if i % 11 == 0 {
+                acc.sample("chain", || format!("{} nodes deep: {}…", expr_depth(e), show_expr(e).chars().take(80).collect::<String>()));
+            }
+            // run on a roomy stack: these trees are deep for the recursive printer / comparison (that is C19's subject)
+            std::thread::scope(|s| {
+                std::thread::Builder::new()
+                    .stack_size(256 << 20)
+                    .spawn_scoped(s, || check(e))
+                    .expect("spawn")
+                    .join()
+                    .unwrap_or_else(|_| Err(Issue::new("display:panic", "round trip of a long chain panicked")))
+            })
+        },
+        |i| json!({"tree": expr_to_json(&chains[i as usize]), "text": "long chain"}),
+        "tree",
+    );
+
     let nt = ctx.tier.pick(120_000u64, 2_000_000u64);
     ctx.random_min(
         "random-tight-operator-trees",
